@@ -21,6 +21,7 @@ def pcIds : Pc → List Id
   | .probe i | .acq i | .relook i | .relRel i _ | .weakGet i | .weakDel i _ | .weakDelDead i _ | .strongSet i _
   | .relSet i _
   | .select i | .put i _ | .finRel i _ | .finRelNF i | .insert i | .crSet i _ | .crSelect i _
+  | .nProbe i | .nAcq i | .nRelook i
   | .exAcq i | .exInStrong i | .exDelStrong i | .exInWeak i | .exDelWeak i => [i]
   | _ => []
 
@@ -52,12 +53,12 @@ def thIds (th : Th) : List Id := pcIds th.pc ++ progIds th.prog
 def thCrIds (th : Th) : List Id := pcCrIds th.pc ++ progCrIds th.prog
 def thPend (th : Th) : List Id := pendPc th.pc ++ progCrIds th.prog
 
-theorem pcIds_entry (c : Bool) (op : Op) : pcIds (entry c op) = opIds op := by
-  cases op <;> cases c <;> rfl
-theorem pcCrIds_entry (c : Bool) (op : Op) : pcCrIds (entry c op) = opCrIds op := by
-  cases op <;> cases c <;> rfl
-theorem pendPc_entry (c : Bool) (op : Op) : pendPc (entry c op) = opCrIds op := by
-  cases op <;> cases c <;> rfl
+theorem pcIds_entry (dc c : Bool) (op : Op) : pcIds (entry dc c op) = opIds op := by
+  cases op <;> cases c <;> cases dc <;> rfl
+theorem pcCrIds_entry (dc c : Bool) (op : Op) : pcCrIds (entry dc c op) = opCrIds op := by
+  cases op <;> cases c <;> cases dc <;> rfl
+theorem pendPc_entry (dc c : Bool) (op : Op) : pendPc (entry dc c op) = opCrIds op := by
+  cases op <;> cases c <;> cases dc <;> rfl
 
 /-- what one step does to the three id lists of the acting thread -/
 structure IdsLe (th' th : Th) : Prop where
@@ -110,7 +111,7 @@ theorem afterCC_idsle (s : State) (t : Tid) (k : K) (h1 : pcCrIds (s.th t).pc = 
 
 theorem afterCaches_idsle (s : State) (t : Tid) (k : K) (h1 : pcCrIds (s.th t).pc = kCr k)
     (h2 : pcIds (s.th t).pc = kIds k) : IdsLe ((afterCaches s t k).th t) (s.th t) := by
-  cases k <;> simp only [afterCaches] <;>
+  cases k <;> simp only [afterCaches] <;> (try split) <;>
     exact goto_idsle _ _ _ (by rw [h1]; simp [pcCrIds, kCr]) (by rw [h2]; simp [pcIds, kIds]) (by simp [pendPc])
 
 theorem pcIds_cuWeakNext (k : K) (l : List Id) : pcIds (cuWeakNext k l) = kIds k := by cases l <;> rfl
@@ -134,7 +135,7 @@ theorem ids_step (s s' : State) (t : Tid) (hs : step s t = some s') : IdsLe (s'.
 
 /-! ## no thread runs `expireAll` -/
 def pcEA : Pc → Bool
-  | .eaAcq | .eaNext _ _ | .eaSetWeak _ _ _ _ | .eaSwap | .eaRel | .eaRelErr => true
+  | .eaEntry | .eaAcq | .eaNext _ _ | .eaSetWeak _ _ _ _ | .eaSwap | .eaRel | .eaRelErr => true
   | .csGet k | .csSet k | .ccTest k | .ccRead k | .ccWrite k _ | .ccReset k | .cuAcq k | .cuWeakKeys k
   | .cuWeakChk k _ | .cuStrongKeys k | .cuStrongGet k _ _ | .cuStrongDel k _ _ _ | .cuWeakSet k _ _ _ | .cuRel k
   | .cuWeakPop k _ _ _ =>
@@ -150,8 +151,8 @@ def isEA : Op → Bool
 def thNoEA (th : Th) : Prop := pcEA th.pc = false ∧ ∀ op ∈ th.prog, isEA op = false
 def NoEA (s : State) : Prop := ∀ t, thNoEA (s.th t)
 
-theorem pcEA_entry (c : Bool) (op : Op) (h : isEA op = false) : pcEA (entry c op) = false := by
-  cases op <;> cases c <;> simp_all [entry, pcEA, isEA]
+theorem pcEA_entry (dc c : Bool) (op : Op) (h : isEA op = false) : pcEA (entry dc c op) = false := by
+  cases op <;> cases c <;> cases dc <;> simp_all [entry, pcEA, isEA]
 
 theorem goto_nea (s : State) (t : Tid) (pc : Pc) (h : thNoEA (s.th t)) (hp : pcEA pc = false) :
     thNoEA ((goto s t pc).th t) := by
@@ -165,7 +166,7 @@ theorem finish_nea (s : State) (t : Tid) (o : Out) (h : thNoEA (s.th t)) : thNoE
     simp only [setTh_self, thNoEA]
     have h2 := h.2
     rw [he] at h2
-    exact ⟨pcEA_entry _ _ (h2 op (by simp)), fun op' ho => h2 op' (by simp [ho])⟩
+    exact ⟨pcEA_entry _ _ _ (h2 op (by simp)), fun op' ho => h2 op' (by simp [ho])⟩
 
 theorem releaseFinish_nea (s : State) (t : Tid) (o : Out) (h : thNoEA (s.th t)) :
     thNoEA ((releaseFinish s t o).th t) := by
@@ -180,7 +181,7 @@ theorem afterCC_nea (s : State) (t : Tid) (k : K) (h : thNoEA (s.th t)) (hk : pc
 
 theorem afterCaches_nea (s : State) (t : Tid) (k : K) (h : thNoEA (s.th t)) (hk : pcEA (.ccTest k) = false) :
     thNoEA ((afterCaches s t k).th t) := by
-  cases k <;> simp only [afterCaches] <;>
+  cases k <;> simp only [afterCaches] <;> (try split) <;>
     first | exact goto_nea _ _ _ h rfl | simp [pcEA] at hk
 
 theorem pcEA_cuWeakNext (k : K) (ks : List Id) : pcEA (cuWeakNext k ks) = pcEA (.ccTest k) := by
@@ -312,12 +313,12 @@ theorem cinv_dbsub (s s' : State) (t : Tid) (ha : AInv s) (hb : BInv s) (hc : CI
     have h2 := hc.act t
     cases hpc : (s.th t).pc <;> simp only [hpc, pcWrites, actCreate] at h h1 h2 <;> simp_all
 
-theorem actCreate_entry (c : Bool) (op : Op) : actCreate (entry c op) = none := by
-  cases op <;> cases c <;> rfl
+theorem actCreate_entry (dc c : Bool) (op : Op) : actCreate (entry dc c op) = none := by
+  cases op <;> cases c <;> cases dc <;> rfl
 theorem actCreate_finish (s : State) (t : Tid) (o : Out) : actCreate ((finish s t o).th t).pc = none := by
   unfold finish; split
   · simp only [setTh_self]; rfl
-  · simp only [setTh_self]; exact actCreate_entry _ _
+  · simp only [setTh_self]; exact actCreate_entry _ _ _
 theorem actCreate_releaseFinish (s : State) (t : Tid) (o : Out) :
     actCreate ((releaseFinish s t o).th t).pc = none := by
   unfold releaseFinish; split <;> exact actCreate_finish _ _ _
@@ -325,7 +326,7 @@ theorem actCreate_afterCC (s : State) (t : Tid) (k : K) : actCreate ((afterCC s 
   cases k <;> simp only [afterCC, goto_pc_self, actCreate_finish] <;> rfl
 theorem actCreate_afterCaches (s : State) (t : Tid) (k : K) :
     actCreate ((afterCaches s t k).th t).pc = kCreate k := by
-  cases k <;> simp only [afterCaches, goto_pc_self] <;> rfl
+  cases k <;> simp only [afterCaches] <;> (try split) <;> simp only [goto_pc_self] <;> rfl
 theorem actCreate_cuWeakNext (k : K) (l : List Id) : actCreate (cuWeakNext k l) = kCreate k := by cases l <;> rfl
 theorem actCreate_cuStrongNext (k : K) (l : List Id) : actCreate (cuStrongNext k l) = kCreate k := by cases l <;> rfl
 
@@ -359,7 +360,7 @@ theorem pend_after_insert (s s' : State) (t : Tid) (hs : step s t = some s') (j 
   split at hs
   · injection hs with hs; subst hs
     simp at hdb
-  · split at hs <;> (injection hs with hs; subst hs) <;> simp [thPend, goto, pendPc]
+  · (repeat' split at hs) <;> (injection hs with hs; subst hs) <;> simp [thPend, goto, pendPc]
 
 theorem cinv_step (s s' : State) (t : Tid) (ha : AInv s) (hb : BInv s) (hf : Fresh s) (hc : CInv s)
     (hs : step s t = some s') : CInv s' := by
@@ -407,7 +408,7 @@ theorem cinv_step (s s' : State) (t : Tid) (ha : AInv s) (hb : BInv s) (hf : Fre
             simp only [step, hins] at hs
             split at hs
             · rename_i hin; exact hnd hin
-            · split at hs <;> (injection hs with hs; subst hs) <;> simp at e
+            · (repeat' split at hs) <;> (injection hs with hs; subst hs) <;> simp at e
           · rw [hins] at hpj; injection hpj with hpj; subst hpj; rw [e]; simp
     · rw [hne u hu] at hact
       obtain ⟨hnp, hdb⟩ := hc.act u i o hact
@@ -433,12 +434,13 @@ theorem gid_pcIds (pc : Pc) (i : Id) (h : gid pc = some i) : i ∈ pcIds pc := b
   cases pc <;> simp_all [gid, pcIds]
 
 /-- freshness makes the lock-free steps harmless -/
-theorem crok_of_fresh (s : State) (t : Tid) (hf : Fresh s) (hn : NoEA s) (hc : CInv s) : CrOK s t := by
+theorem crok_of_fresh (s : State) (t : Tid) (hf : Fresh s) (hn : NoEA s) (hc : CInv s) (hd : s.dc = true) :
+    CrOK s t := by
   constructor
   · intro i o hp
     obtain ⟨hnp, _⟩ := hc.act t i o (by rw [hp]; rfl)
     have hcr : i ∈ thCrIds (s.th t) := by simp [thCrIds, hp, pcCrIds]
-    refine ⟨?_, ?_, ?_, ?_, ?_⟩
+    refine ⟨?_, ?_, ?_, ?_, ?_, hd⟩
     · cases h : aget s.strong i with
       | none => rfl
       | some v => exact absurd (Or.inl (by simp [h])) hnp
@@ -455,8 +457,8 @@ theorem crok_of_fresh (s : State) (t : Tid) (hf : Fresh s) (hn : NoEA s) (hc : C
     exact hc.pend t i (by simp [thPend, hp, pendPc])
 
 /-- all layers along a schedule, for programs with fresh creates and no expireAll -/
-theorem inv_run_fresh (s : State) (sched : List Tid) (ha : AInv s) (hb : BInv s) (hfi : FInv s) (hf : Fresh s)
-    (hn : NoEA s) (hc : CInv s) (he : EInv s) :
+theorem inv_run_fresh (s : State) (sched : List Tid) (ha : AInv s) (hb : BInv s) (hfi : FInv s) (hm : MdInv s)
+    (hd : s.dc = true) (hf : Fresh s) (hn : NoEA s) (hc : CInv s) (he : EInv s) :
     AInv (run s sched) ∧ BInv (run s sched) ∧ Fresh (run s sched) ∧ NoEA (run s sched) ∧ CInv (run s sched) ∧
       EInv (run s sched) := by
   induction sched generalizing s with
@@ -465,14 +467,15 @@ theorem inv_run_fresh (s : State) (sched : List Tid) (ha : AInv s) (hb : BInv s)
     unfold run
     split
     · rename_i s' hs
-      have hcr := crok_of_fresh s t hf hn hc
-      exact ih s' (ainv_step s s' t ha hs) (binv_step s s' t ha hb hfi hcr hs) (finv_step s s' t hfi hs)
+      have hcr := crok_of_fresh s t hf hn hc hd
+      have hd' : s'.dc = true := by rw [dc_step s s' t hs]; exact hd
+      exact ih s' (ainv_step s s' t ha hs) (binv_step s s' t ha hb hfi hm hcr hs) (finv_step s s' t hfi hs) (mdinv_step s s' t hm hs) hd'
         (fresh_step s s' t hf hs) (noea_step s s' t hn hs) (cinv_step s s' t ha hb hf hc hs)
         (einv_step s s' t ha hb hcr he hs)
-    · exact ih s ha hb hfi hf hn hc he
+    · exact ih s ha hb hfi hm hd hf hn hc he
 
-theorem reach_run_fresh (s : State) (sched : List Tid) (ha : AInv s) (hb : BInv s) (hfi : FInv s) (hf : Fresh s)
-    (hn : NoEA s) (hc : CInv s) (i : Id) (o : Obj) (hr : Reach s i o) (hal : Held s o) :
+theorem reach_run_fresh (s : State) (sched : List Tid) (ha : AInv s) (hb : BInv s) (hfi : FInv s) (hm : MdInv s)
+    (hd : s.dc = true) (hf : Fresh s) (hn : NoEA s) (hc : CInv s) (i : Id) (o : Obj) (hr : Reach s i o) (hal : Held s o) :
     Reach (run s sched) i o := by
   induction sched generalizing s with
   | nil => exact hr
@@ -480,58 +483,59 @@ theorem reach_run_fresh (s : State) (sched : List Tid) (ha : AInv s) (hb : BInv 
     unfold run
     split
     · rename_i s' hs
-      have hcr := crok_of_fresh s t hf hn hc
-      exact ih s' (ainv_step s s' t ha hs) (binv_step s s' t ha hb hfi hcr hs) (finv_step s s' t hfi hs)
+      have hcr := crok_of_fresh s t hf hn hc hd
+      have hd' : s'.dc = true := by rw [dc_step s s' t hs]; exact hd
+      exact ih s' (ainv_step s s' t ha hs) (binv_step s s' t ha hb hfi hm hcr hs) (finv_step s s' t hfi hs) (mdinv_step s s' t hm hs) hd'
         (fresh_step s s' t hf hs) (noea_step s s' t hn hs) (cinv_step s s' t ha hb hf hc hs)
         (reach_step s s' t ha hb hcr hs i o hr hal) (held_step s s' t hs o hal)
-    · exact ih s ha hb hfi hf hn hc hr hal
+    · exact ih s ha hb hfi hm hd hf hn hc hr hal
 
 /-! ## initial states -/
-theorem startTh_ids (c : Bool) (p : List Op) :
-    thIds (startTh c p) = progIds p ∧ thCrIds (startTh c p) = progCrIds p ∧ thPend (startTh c p) = progCrIds p := by
+theorem startTh_ids (dc c : Bool) (p : List Op) :
+    thIds (startTh dc c p) = progIds p ∧ thCrIds (startTh dc c p) = progCrIds p ∧ thPend (startTh dc c p) = progCrIds p := by
   cases p with
   | nil => simp [startTh, thIds, thCrIds, thPend, pcIds, pcCrIds, pendPc, progIds, progCrIds]
   | cons op rest =>
     simp [startTh, thIds, thCrIds, thPend, pcIds_entry, pcCrIds_entry, pendPc_entry, progIds, progCrIds]
 
-theorem actCreate_startTh (c : Bool) (p : List Op) : actCreate (startTh c p).pc = none := by
+theorem actCreate_startTh (dc c : Bool) (p : List Op) : actCreate (startTh dc c p).pc = none := by
   cases p
   · rfl
-  · simp only [startTh]; exact actCreate_entry _ _
+  · simp only [startTh]; exact actCreate_entry _ _ _
 
-theorem noea_startTh (c : Bool) (p : List Op) (h : ∀ op ∈ p, isEA op = false) : thNoEA (startTh c p) := by
+theorem noea_startTh (dc c : Bool) (p : List Op) (h : ∀ op ∈ p, isEA op = false) : thNoEA (startTh dc c p) := by
   cases p with
   | nil => simp [startTh, thNoEA, pcEA]
   | cons op rest =>
     simp only [startTh, thNoEA]
-    exact ⟨pcEA_entry _ _ (h op (by simp)), fun op' ho => h op' (by simp [ho])⟩
+    exact ⟨pcEA_entry _ _ _ (h op (by simp)), fun op' ho => h op' (by simp [ho])⟩
 
-theorem fresh_init (caches : Bool) (strong weak : AMap) (db : List Id) (fresh freq frac cc off : Nat)
+theorem fresh_init (dc caches : Bool) (strong weak : AMap) (db : List Id) (fresh freq frac cc off : Nat)
     (pins : List Obj) (progs : Tid → List Op)
     (h1 : ∀ t u, t ≠ u → ∀ i ∈ progCrIds (progs t), i ∉ progIds (progs u))
     (h2 : ∀ t, (progCrIds (progs t)).Nodup) :
-    Fresh (mkInit caches strong weak db fresh freq frac cc off pins progs) := by
+    Fresh (mkInit dc caches strong weak db fresh freq frac cc off pins progs) := by
   constructor
   · intro t u htu i hi
-    change i ∈ thCrIds (startTh caches (progs t)) at hi
-    change i ∉ thIds (startTh caches (progs u))
-    rw [(startTh_ids caches (progs t)).2.1] at hi
-    rw [(startTh_ids caches (progs u)).1]
+    change i ∈ thCrIds (startTh dc caches (progs t)) at hi
+    change i ∉ thIds (startTh dc caches (progs u))
+    rw [(startTh_ids dc caches (progs t)).2.1] at hi
+    rw [(startTh_ids dc caches (progs u)).1]
     exact h1 t u htu i hi
   · intro t
-    change (thCrIds (startTh caches (progs t))).Nodup
-    rw [(startTh_ids caches (progs t)).2.1]; exact h2 t
+    change (thCrIds (startTh dc caches (progs t))).Nodup
+    rw [(startTh_ids dc caches (progs t)).2.1]; exact h2 t
 
-theorem noea_init (caches : Bool) (strong weak : AMap) (db : List Id) (fresh freq frac cc off : Nat)
+theorem noea_init (dc caches : Bool) (strong weak : AMap) (db : List Id) (fresh freq frac cc off : Nat)
     (pins : List Obj) (progs : Tid → List Op) (h : ∀ t, ∀ op ∈ progs t, isEA op = false) :
-    NoEA (mkInit caches strong weak db fresh freq frac cc off pins progs) :=
-  fun t => noea_startTh caches (progs t) (h t)
+    NoEA (mkInit dc caches strong weak db fresh freq frac cc off pins progs) :=
+  fun t => noea_startTh dc caches (progs t) (h t)
 
-theorem cinv_init (caches : Bool) (strong weak : AMap) (db : List Id) (fresh freq frac cc off : Nat)
+theorem cinv_init (dc caches : Bool) (strong weak : AMap) (db : List Id) (fresh freq frac cc off : Nat)
     (pins : List Obj) (progs : Tid → List Op)
     (hdb : ∀ i, (aget strong i ≠ none ∨ aget weak i ≠ none) → i ∈ db)
     (h3 : ∀ t, ∀ i ∈ progCrIds (progs t), i ∉ db) :
-    CInv (mkInit caches strong weak db fresh freq frac cc off pins progs) := by
+    CInv (mkInit dc caches strong weak db fresh freq frac cc off pins progs) := by
   refine ⟨?_, ?_, ?_, ?_⟩
   · intro i hp
     rcases hp with h | h | ⟨o, h⟩
@@ -539,16 +543,31 @@ theorem cinv_init (caches : Bool) (strong weak : AMap) (db : List Id) (fresh fre
     · exact hdb i (Or.inr h)
     · simp [mkInit] at h
   · intro t i hi
-    change i ∈ thPend (startTh caches (progs t)) at hi
-    rw [(startTh_ids caches (progs t)).2.2] at hi
+    change i ∈ thPend (startTh dc caches (progs t)) at hi
+    rw [(startTh_ids dc caches (progs t)).2.2] at hi
     exact h3 t i hi
   · intro t i o h
-    have : actCreate (startTh caches (progs t)).pc = some (i, o) := h
+    have : actCreate (startTh dc caches (progs t)).pc = some (i, o) := h
     simp [actCreate_startTh] at this
   · intro t i o h
-    have h' : (startTh caches (progs t)).pc = .put i o := h
-    have := holds_startTh caches (progs t)
+    have h' : (startTh dc caches (progs t)).pc = .put i o := h
+    have := holds_startTh dc caches (progs t)
     rw [h'] at this; simp [holds] at this
+
+theorem mdinv_init (dc caches : Bool) (strong weak : AMap) (db : List Id) (fresh freq frac cc off : Nat)
+    (pins : List Obj) (progs : Tid → List Op) (h : dc = false → strong = []) :
+    MdInv (mkInit dc caches strong weak db fresh freq frac cc off pins progs) := by
+  refine ⟨h, ?_, ?_⟩
+  · intro t ht
+    have ht' : pcDc (startTh dc caches (progs t)).pc = true := ht
+    cases hp : progs t with
+    | nil => rw [hp] at ht'; simp [startTh, pcDc] at ht'
+    | cons op rest => rw [hp] at ht'; exact pcDc_entry _ _ _ ht'
+  · intro t ht
+    have ht' : pcNc (startTh dc caches (progs t)).pc = true := ht
+    cases hp : progs t with
+    | nil => rw [hp] at ht'; simp [startTh, pcNc] at ht'
+    | cons op rest => rw [hp] at ht'; exact pcNc_entry _ _ _ ht'
 
 /-! ## programs given as a finite list -/
 def progsOf (l : List (List Op)) : Tid → List Op := fun t => l.getD t []
